@@ -5,7 +5,7 @@ C14 -- re-parsing is idempotent and commit=False has no side effects.
 import ast
 
 from .. import AnalysisError, flow
-from ..srcmodel import walk_local, norm, dotted, guards, enclosing_stmt, facts_at
+from ..srcmodel import walk_local, norm, dotted, guards, enclosing_stmt, facts_at, literals
 from . import common, forward
 
 from .c15 import _globals_inventory
@@ -98,6 +98,31 @@ def check(ctx):
     ctx.attempt(forward.check_all, module_suffixes=('plssdesc.plssdesc', 'tract.tract', 'tract.tract_parse'))
 
 
+def seed_guard(ctx, seeded=None):
+    if seeded is None:
+        seeded = {}
+        ci = ctx.repo.cls('tract_parse:TractParser')
+        for m in ci.methods.values():
+            for n in walk_local(m.node):
+                if isinstance(n, ast.Assign) and norm(n.targets[0]).startswith('self.') and any(
+                        norm(x).startswith('parent.') for x in ast.walk(n.value) if isinstance(x, ast.Attribute)):
+                    seeded[norm(n.targets[0])[5:]] = (norm(n.value), None, n, m)
+        if not seeded:
+            ctx.undecided('COMMIT', 'TractParser takes over the flags of its parent', 'no seeding statement recognised')
+    # the hand-over from the parent is conditioned on there being a parent, not
+    # on the parent's state (a re-parsed tract still carries the flags its
+    # description handed down)
+    for a, (txt, fresh, node, m) in sorted(seeded.items()):
+        lits = [(t, pol) for _e, t, pol in literals(guards(node))]
+        state = [(t, pol) for t, pol in lits if 'parent.' in t]
+        exists = ('parent', True) in lits or ('parent is None', False) in lits or ('self.parent', True) in lits
+        ctx.tri(exists and not state, bool(state), 'COMMIT',
+                f"TractParser.{a}: the tract's existing {a} are taken over whenever there is a parent",
+                detail_bad=f"`{txt}` runs only under {state}: in the other state the flags the tract already carries "
+                           f"(those handed down by its description) are dropped by a (re-)parse",
+                key=f"COMMIT|TractParser|seed-guard|{a}", where=common.loc(m, node))
+
+
 def _parsers_readonly(ctx):
     ci = ctx.repo.cls('tract_parse:TractParser')
     seeded = {}
@@ -129,6 +154,7 @@ def _parsers_readonly(ctx):
                             detail_bad=f"`{norm(n)}` seeds {tgt[5:]} from the tract's {sorted(cross)}: every re-parse copies "
                                        f"entries of another list in again, so the lists grow and get out of step",
                             key=f"COMMIT|TractParser|cross-seed|{tgt[5:]}", where=common.loc(m, n))
+    seed_guard(ctx, seeded)
     if len(seeded) < 4:
         ctx.undecided('COMMIT', 'TractParser attributes seeded from the parent', f"only {len(seeded)} explicit seedings recognised")
     for a, (txt, fresh, node, m) in sorted(seeded.items()):
